@@ -135,7 +135,7 @@ def run(ctx):
     if not binp:
         return
     r = ctx.rng
-    ncase = 1200 if ctx.thorough else 48
+    ncase = 800 if ctx.thorough else 48
     plan = []
     for i in range(ncase):
         wide = (i % 3 == 0)
